@@ -39,7 +39,10 @@ RULE = ('one case = one trial: a random constraint assignment (acyclic / cyclic 
         'reply class, irc.callbacks names on both networks, probe commands answered through the real dispatcher.  Non-trivial = at least one tag (all trials have some); distinct = distinct trial description.')
 
 PLUGDIR = os.path.join(os.path.dirname(os.path.abspath(__file__)), 'plugins')
-VT = ['VtOrd%d' % i for i in range(7)]     # VtOrd6 lives in a directory spelt VTORD6: name on disk != registered name
+VT = ['VtOrd%d' % i for i in range(8)]
+# name on disk != registered name: VtOrd6 lives in a directory spelt VTORD6, VtOrd7 in a directory called VtGreeter
+DIR_OF = {'VtOrd6': 'VTORD6', 'VtOrd7': 'VtGreeter'}
+CLASS_OF_DIR = dict((DIR_OF.get(v, v).lower(), v) for v in VT)
 BASE = ('Owner', 'Misc', 'User')
 F_RELOAD = 'C20-reload-loses-plugin'
 
@@ -183,7 +186,7 @@ def gen_ops(r, n):
     ops = []
     for _ in range(n):
         x = r.random()
-        tgt = r.choice(VT) if r.random() < 0.85 else r.choice(['Owner', 'owner', 'OWNER', 'User', 'Misc', 'Ghost', 'Owner.py'])
+        tgt = r.choice(VT + ['VtGreeter', 'VtGreeter', 'VTORD6']) if r.random() < 0.85 else r.choice(['Owner', 'owner', 'OWNER', 'User', 'Misc', 'Ghost', 'Owner.py'])
         fault = ''
         y = r.random()
         if y < 0.04: fault = 'die+ctor'
@@ -195,13 +198,20 @@ def gen_ops(r, n):
         elif x < 0.65: kind = 'unload'
         elif x < 0.9: kind = 'reload'
         else: kind = 'startup'
-        ops.append({'op': kind, 'name': case_variant(r, tgt) if tgt in VT or r.random() < 0.5 else tgt, 'fault': fault,
-                    'irc': 1 if r.random() < 0.3 else 0,          # the network the command arrives on
+        ops.append({'op': kind, 'name': case_variant(r, tgt) if tgt in VT or tgt.startswith('V') or r.random() < 0.5 else tgt, 'fault': fault,
+                    'irc': 1 if r.random() < 0.5 else 0,          # the network the command arrives on
                     'bump': r.random() < 0.6,                      # the plugin's module "on disk" changes first
                     'dep': r.random() < 0.4,                       # load --deprecated
                     'sfaults': {v: r.choice(FAULTS[:3]) for v in VT if r.random() < 0.12} if kind == 'startup' else {}})
 
     return ops
+
+def reg_name(n):
+    """the registered name (class name) this command argument designates, up to case"""
+    for k in VT + list(BASE):
+        if k.lower() == n.lower():
+            return k
+    return None
 
 def flags_of(b):
     """supybot.plugins.<Name> for the plugins of the trial, in the order the start-up loader sees them"""
@@ -216,8 +226,12 @@ def fault_bits(fault, deprecated=False, ignore=False):
     return ''.join('1' if x in fs else '0' for x in FAULTS) + ('1' if deprecated else '0') + ('1' if ignore else '0')
 
 def real_name(n):
+    """the plugin class that plugin.loadPluginModule finds for this name (directories are matched without
+    regard to case), None when there is no such directory"""
     n = n[:-3] if n.endswith('.py') else n
-    for k in VT + list(BASE):
+    if n.lower() in CLASS_OF_DIR:
+        return CLASS_OF_DIR[n.lower()]
+    for k in BASE:
         if k.lower() == n.lower():
             return k
     return None
@@ -236,21 +250,28 @@ def describe_plugin(c, n, version=None):
     return '%s/%s/%s/%s/%s' % (wire.enc(n), kind, enc(c.before.get(n, [])), enc(c.after.get(n, [])), enc(cmds))
 
 def resolved_constraints(b, c):
-    """(a, b, owner of the declaration) pairs 'a must come before b' as the code resolves them now"""
+    """(a, b, owner of the declaration, self-reference?) pairs 'a must come before b', resolved against the
+    callback list itself (first callback with that name, case-insensitively) — not through Irc.getCallback"""
+    cbs = list(b.irc.callbacks)
+    def find(x):
+        for cb in cbs:
+            if cb.name().lower() == x.lower():
+                return cb
+        return None
     out = []
-    for cb in b.irc.callbacks:
+    for cb in cbs:
         n = cb.name()
         if n not in VT:
             continue
         selfref = False
         decl = []
         for x in c.before.get(n, []):
-            o = b.irc.getCallback(x)
+            o = find(x)
             if o is not None:
                 decl.append((n, o.name()))
                 selfref = selfref or o is cb
         for x in c.after.get(n, []):
-            o = b.irc.getCallback(x)
+            o = find(x)
             if o is not None:
                 decl.append((o.name(), n))
                 selfref = selfref or o is cb
@@ -318,7 +339,7 @@ def run_trial(b, c, trial):
         # probes: every command is sent through the real dispatcher, on both networks
         answered = []
         last = (si == len(trial['ops']) - 1)
-        probe = VT if (last or trial.get('probe_all')) else [v for v in VT if v == rn or v == VT[(si * 5 + len(nm)) % len(VT)]]
+        probe = VT if (last or trial.get('probe_all')) else [v for v in VT if v == rn or v == reg_name(nm) or v == VT[(si * 5 + len(nm)) % len(VT)]]
         probed_cmds = set()
         for v in probe:
             inst = b.irc.getCallback(v)
@@ -357,7 +378,7 @@ def run_trial(b, c, trial):
         if kind == 'unload':
             lines.append('unload\t%d\t%s\t%s' % (which, wire.enc(nm), fbits))
         elif kind == 'startup':
-            disk = ','.join(describe_plugin(c, n) for n in list(BASE) + VT)
+            disk = ','.join('%s=%s' % (wire.enc(DIR_OF.get(n, n)), describe_plugin(c, n)) for n in list(BASE) + VT)
             fm = ','.join('%s:%s' % (wire.enc(v), fault_bits(sf.get(v, ''), v in c.deprecated, False)) for v in VT)
             lines.append('startup\t%d\t%s\t%s\t%s\t%s\t%s' % (which, disk, fm, wire.enc_list(important), '1' if always else '0',
                                                                 wire.enc_list(after_names)))
@@ -374,8 +395,8 @@ def run_trial(b, c, trial):
             tags.add('deprecated' + ('+flag' if dep else ''))
         if kind == 'load' and reply == 'success' and rn and dict(after_flags).get(rn) is not True:
             problems.append('step %d: load %s succeeded but supybot.plugins.%s is %r' % (si, nm, rn, dict(after_flags).get(rn)))
-        if kind == 'unload' and reply == 'success' and rn and dict(after_flags).get(rn) is not False:
-            problems.append('step %d: unload %s succeeded but supybot.plugins.%s is %r' % (si, nm, rn, dict(after_flags).get(rn)))
+        if kind == 'unload' and reply == 'success' and reg_name(nm) and dict(after_flags).get(reg_name(nm)) is not False:
+            problems.append('step %d: unload %s succeeded but supybot.plugins.%s is %r' % (si, nm, reg_name(nm), dict(after_flags).get(reg_name(nm))))
         tags.update(['op:' + kind, 'reply:' + reply.split(':')[0]] + (['fault:' + fault] if fault else []))
         # ---- property oracle on the implementation ----
         low = [n.lower() for n in after_names]
@@ -403,8 +424,16 @@ def run_trial(b, c, trial):
                 problems.append(msg)
         if kind == 'load' and reply == 'success' and rn and rn not in after_names:
             problems.append('step %d: load %s succeeded but %s is not registered' % (si, nm, rn))
-        if kind == 'unload' and reply in ('success', 'exception') and rn and rn in after_names:
-            problems.append('step %d: unload %s -> %s but %s is still registered' % (si, nm, reply, rn))
+        reg = reg_name(nm)
+        if kind == 'unload' and reply in ('success', 'exception') and reg and reg in after_names:
+            problems.append('step %d: unload %s -> %s but %s is still registered' % (si, nm, reply, reg))
+        # name lookups on every network (they also prime whatever a network caches per object)
+        for net in (0, 1):
+            for v in VT + list(BASE):
+                cbv = b.ircs[net].getCallback(v.swapcase() if (si + net) % 2 else v)
+                if (cbv is not None) != (v in after_names) or (cbv is not None and cbv.name() != v):
+                    problems.append('step %d (%s %s on network %d): network %d answers getCallback(%r) = %r while irc.callbacks is %r' % (
+                        si, kind, nm, which, net, v, None if cbv is None else cbv.name(), after_names))
     return impl, lines, problems, findings, tags, probed
 
 def classify(problems, findings):
@@ -455,7 +484,15 @@ def explore(ctx, n, stream='c20', maxops=10, corpus=()):
     # on a heap that grows with every plugin module ever imported)
     def work(w, item):
         trial, kind = item
-        impl, lines, problems, findings, tags, probed = run_trial(b, c, trial)
+        try:
+            impl, lines, problems, findings, tags, probed = run_trial(b, c, trial)
+        except Exception as e:
+            # the bot got into a state the harness cannot even walk through: that is a failure of the property's
+            # subject (an inconsistent dispatcher), reported with the trial as replay
+            import traceback
+            return {'impl': ['harness-stopped'], 'lines': [], 'problems': ['the trial could not be completed: %s: %s (%s)' % (
+                        type(e).__name__, e, traceback.format_exc().strip().split('\n')[-3].strip())],
+                    'findings': [], 'tags': ['trial-aborted'], 'probed': [None]}
         return {'impl': impl, 'lines': lines, 'problems': problems, 'findings': sorted(findings), 'tags': sorted(tags),
                 'probed': [None if x is None else sorted(x) for x in probed]}
     results = par_map(work, trials, nworkers=10)
